@@ -105,24 +105,84 @@ Digits(n, base) == IF n < base THEN <<DigitCh(n)>>
                    ELSE Digits(n \div base, base) \o <<DigitCh(n % base)>>
 
 RenderInt(n) == IF n < 0 THEN <<45>> \o Digits(-n, 10) ELSE Digits(n, 10)
+\* base 16 of a negative integer: the sign and the digits of the magnitude
+RenderHex(n) == IF n < 0 THEN <<45>> \o Digits(-n, 16) ELSE Digits(n, 16)
 
 RECURSIVE Pow10(_)
 Pow10(k) == IF k <= 0 THEN 1 ELSE 10 * Pow10(k - 1)
 
+RECURSIVE Rep(_, _)
+Rep(c, k) == IF k <= 0 THEN << >> ELSE <<c>> \o Rep(c, k - 1)
+
+Front(q) == SubSeq(q, 1, Len(q) - 1)
+Last(q)  == q[Len(q)]
+
+(* Integers of any size (TLC integers have 32 bits): the magnitude is the
+   sequence of its decimal digit VALUES (0..9, most significant first). *)
+
+IsDigitSeq(ds) == \A i \in 1..Len(ds) : ds[i] \in 0..9
+
+RECURSIVE StripZ(_)                 \* no leading zeroes, but at least one digit
+StripZ(ds) == IF Len(ds) > 1 /\ Head(ds) = 0 THEN StripZ(Tail(ds)) ELSE ds
+
+DigitText(ds) == [i \in 1..Len(ds) |-> 48 + ds[i]]
+
+\* schoolbook division of a digit sequence by a small number:
+\* [q |-> quotient (same length, leading zeroes), r |-> remainder]
+RECURSIVE DivSmall(_, _, _)
+DivSmall(ds, by, carry) ==
+  IF ds = << >> THEN [q |-> << >>, r |-> carry]
+  ELSE LET cur  == carry * 10 + Head(ds)
+           rest == DivSmall(Tail(ds), by, cur % by)
+       IN [q |-> <<cur \div by>> \o rest.q, r |-> rest.r]
+
+RECURSIVE ToBase(_, _)              \* ds without leading zeroes, not zero
+ToBase(ds, base) ==
+  IF ds = <<0>> THEN << >>
+  ELSE LET dm == DivSmall(ds, base, 0)
+       IN ToBase(StripZ(dm.q), base) \o <<DigitCh(dm.r)>>
+
+HexOfDigits(ds) == IF StripZ(ds) = <<0>> THEN <<48>> ELSE ToBase(StripZ(ds), 16)
+
+RECURSIVE DigitSeqOf(_)             \* the digit sequence of a small n >= 0
+DigitSeqOf(n) == IF n < 10 THEN <<n>> ELSE DigitSeqOf(n \div 10) \o <<n % 10>>
+
+RECURSIVE Incr(_)                   \* the digit sequence plus one
+Incr(ds) == IF ds = << >> THEN <<1>>
+            ELSE IF Last(ds) = 9 THEN Incr(Front(ds)) \o <<0>>
+            ELSE Front(ds) \o <<Last(ds) + 1>>
+
+\* the inverse: digit text in base `base` back to a decimal digit sequence
+\* (schoolbook multiplication from the right)
+RECURSIVE MulSmallAdd(_, _, _)
+MulSmallAdd(ds, by, c) ==
+  IF ds = << >> THEN (IF c = 0 THEN << >> ELSE DigitSeqOf(c))
+  ELSE LET v == Last(ds) * by + c
+       IN MulSmallAdd(Front(ds), by, v \div 10) \o <<v % 10>>
+
+DigitOfCh(ch) == IF ch <= 57 THEN ch - 48 ELSE ch - 87
+
+RECURSIVE FromBaseAcc(_, _, _)
+FromBaseAcc(txt, base, acc) ==
+  IF txt = << >> THEN acc
+  ELSE FromBaseAcc(Tail(txt), base, MulSmallAdd(acc, base, DigitOfCh(Head(txt))))
+FromBase(txt, base) ==
+  LET r == FromBaseAcc(txt, base, << >>) IN IF r = << >> THEN <<0>> ELSE r
+
 -----------------------------------------------------------------------------
 (* Interpolation: s('..{expr#format}..') and sprintf('..{0#format}..', args).
-   A template is a sequence of segments: literal text (k = 0) or a
-   placeholder (k = 1) naming value number `var` of the environment with
+
+   Values: [k |-> "s", txt |-> text], [k |-> "i", n |-> integer] (small) or
+   [k |-> "b", n |-> 1 or -1 (the sign), ds |-> digit values] (any size);
+   in a named environment every value also has the field `name` (text) and
+   all of name, k, txt, n, ds.
+
    format  #[-|0]width[x] :
      mode "r": padded on the left with spaces to `w` (the default)
      mode "l": '-', padded on the right with spaces
      mode "z": '0', padded on the left with zeroes
      hex:      'x', the integer in base 16
-   Values are [k |-> "s", txt |-> text, n |-> 0] or [k |-> "i", txt |-> <<>>,
-   n |-> integer].  Everything outside the placeholders is unchanged. *)
-
-RECURSIVE Rep(_, _)
-Rep(c, k) == IF k <= 0 THEN << >> ELSE <<c>> \o Rep(c, k - 1)
+   Everything outside the placeholders is unchanged. *)
 
 Pad(txt, w, mode) ==
   LET k == IF w > Len(txt) THEN w - Len(txt) ELSE 0
@@ -131,9 +191,13 @@ Pad(txt, w, mode) ==
        [] OTHER      -> Rep(32, k) \o txt
 
 RenderVal(v, hex) ==
-  IF v.k = "i" THEN (IF hex THEN Digits(v.n, 16) ELSE RenderInt(v.n))
-  ELSE v.txt
+  CASE v.k = "i" -> (IF hex THEN RenderHex(v.n) ELSE RenderInt(v.n))
+    [] v.k = "b" -> (IF v.n < 0 /\ StripZ(v.ds) # <<0>> THEN <<45>> ELSE << >>)
+                    \o (IF hex THEN HexOfDigits(v.ds) ELSE DigitText(StripZ(v.ds)))
+    [] OTHER     -> v.txt
 
+(* First formulation: the template is given as its segments, literal text
+   (k = 0) or a placeholder (k = 1) for value number `var`. *)
 RECURSIVE Interp(_, _)
 Interp(segs, env) ==
   IF segs = << >> THEN << >>
@@ -142,40 +206,187 @@ Interp(segs, env) ==
                     ELSE Pad(RenderVal(env[g.var], g.hex), g.w, g.mode)
        IN piece \o Interp(Tail(segs), env)
 
------------------------------------------------------------------------------
-(* Rounding format  #.d : the inserted text denotes the decimal m / 10^sc
-   rounded to d digits after the point (inputs are never ties).  The text is
-   compared as a number, so '1.5' and '1.50' both stand for 3/2. *)
+(* Second formulation: the template is TEXT and is scanned as the function s
+   scans it: the next '{', the next '}' behind it, what is between them is
+   name[#format]; an opening brace that is never closed, a closing brace on
+   its own, digits, '#' ... are ordinary text.  The inserted text is not
+   scanned again.  [ok |-> FALSE] when a group is not a placeholder this
+   model defines (unknown name, format it does not know, 'x' on text, '0' on
+   a negative number, a rounding format: see RoundTextOK). *)
 
 IsDigit(c) == c >= 48 /\ c <= 57
+AllDigits(q) == \A i \in 1..Len(q) : IsDigit(q[i])
 
 RECURSIVE DigitsVal(_)              \* value of a digit string (<= 9 digits)
 DigitsVal(ds) == IF ds = << >> THEN 0
-                 ELSE DigitsVal(SubSeq(ds, 1, Len(ds) - 1)) * 10 + (ds[Len(ds)] - 48)
+                 ELSE DigitsVal(Front(ds)) * 10 + (Last(ds) - 48)
 
-\* [ok, mant, sc]: txt = digits [ '.' digits ], value mant / 10^sc
-ParseDec(txt) ==
-  LET dots == {i \in 1..Len(txt) : txt[i] = 46}
-      good == /\ Len(txt) >= 1 /\ Len(txt) <= 9
-              /\ Cardinality(dots) <= 1
-              /\ \A i \in 1..Len(txt) : IsDigit(txt[i]) \/ txt[i] = 46
-              /\ \E i \in 1..Len(txt) : IsDigit(txt[i])
-  IN IF ~good THEN [ok |-> FALSE, mant |-> 0, sc |-> 0]
-     ELSE IF dots = {} THEN [ok |-> TRUE, mant |-> DigitsVal(txt), sc |-> 0]
-     ELSE LET d == CHOOSE i \in dots : TRUE
-          IN [ok |-> TRUE,
-              mant |-> DigitsVal(Take(txt, d - 1) \o Drop(txt, d)),
-              sc |-> Len(txt) - d]
+\* 1-based position of the first c at or behind position i, 0 if there is none
+IndexFrom(q, c, i) ==
+  LET P == {j \in i..Len(q) : q[j] = c} IN IF P = {} THEN 0 ELSE Min(P)
 
-\* m / 10^sc rounded to d digits, as an integer number of 10^-d units
+NoFmt == [ok |-> TRUE, mode |-> "r", w |-> 0, hex |-> FALSE, d |-> -1]
+
+ParseFmt(spec) ==                   \* the text behind '#'
+  LET left == spec # << >> /\ spec[1] = 45
+      a    == IF left THEN Tail(spec) ELSE spec
+      zero == a # << >> /\ a[1] = 48
+      b    == IF zero THEN Tail(a) ELSE a
+      hex  == b # << >> /\ Last(b) = 120
+      c    == IF hex THEN Front(b) ELSE b
+      dot  == IndexFrom(c, 46, 1)
+      wt   == IF dot = 0 THEN c ELSE Take(c, dot - 1)
+      dt   == IF dot = 0 THEN << >> ELSE Drop(c, dot)
+      good == /\ ~(left /\ zero)               \* '-0': not defined
+              /\ AllDigits(wt) /\ Len(wt) <= 4
+              /\ (dot # 0 => Len(dt) \in 1..2 /\ AllDigits(dt) /\ ~hex)
+  IN IF ~good THEN [ok |-> FALSE, mode |-> "r", w |-> 0, hex |-> FALSE, d |-> -1]
+     ELSE [ok |-> TRUE, mode |-> IF left THEN "l" ELSE IF zero THEN "z" ELSE "r",
+           w |-> DigitsVal(wt), hex |-> hex,
+           d |-> IF dot = 0 THEN -1 ELSE DigitsVal(dt)]
+
+NoPiece == [ok |-> FALSE, txt |-> << >>]
+
+Placeholder(content, env) ==        \* what is between '{' and '}'
+  LET h    == IndexFrom(content, 35, 1)
+      name == IF h = 0 THEN content ELSE Take(content, h - 1)
+      f    == IF h = 0 THEN NoFmt ELSE ParseFmt(Drop(content, h))
+      idx  == {i \in 1..Len(env) : env[i].name = name}
+  IN IF idx = {} \/ ~f.ok \/ f.d # -1 THEN NoPiece
+     ELSE LET v   == env[Min(idx)]
+              txt == RenderVal(v, f.hex)
+          IN IF (f.hex /\ v.k = "s")
+                \/ (f.mode = "z" /\ v.k # "s" /\ txt[1] = 45)
+             THEN NoPiece
+             ELSE [ok |-> TRUE, txt |-> Pad(txt, f.w, f.mode)]
+
+RECURSIVE SFrom(_, _, _)
+SFrom(tpl, env, i) ==               \* the text from position i on, interpolated
+  LET o == IndexFrom(tpl, 123, i)
+      c == IF o = 0 THEN 0 ELSE IndexFrom(tpl, 125, o + 1)
+  IN IF c = 0 THEN [ok |-> TRUE, txt |-> SubSeq(tpl, i, Len(tpl))]
+     ELSE LET ph   == Placeholder(SubSeq(tpl, o + 1, c - 1), env)
+              rest == SFrom(tpl, env, c + 1)
+          IN IF ~ph.ok \/ ~rest.ok THEN NoPiece
+             ELSE [ok |-> TRUE, txt |-> SubSeq(tpl, i, o - 1) \o ph.txt \o rest.txt]
+
+S(tpl, env) == SFrom(tpl, env, 1)
+
+\* sprintf(fmt, a0, a1, ...): the name of argument number i is the decimal
+\* text of i ({1} is the second argument and {10} the eleventh)
+ArgNamesOK(env) == \A i \in 1..Len(env) : env[i].name = RenderInt(i - 1)
+
+\* the text of a template given as segments (names[var] = name of a value)
+FmtText(w, mode, hex) ==
+  LET f == (IF mode = "l" THEN <<45>> ELSE IF mode = "z" THEN <<48>> ELSE << >>)
+           \o (IF w > 0 THEN RenderInt(w) ELSE << >>)
+           \o (IF hex THEN <<120>> ELSE << >>)
+  IN IF f = << >> THEN << >> ELSE <<35>> \o f
+
+RECURSIVE TplText(_, _)
+TplText(segs, names) ==
+  IF segs = << >> THEN << >>
+  ELSE LET g == Head(segs)
+       IN (IF g.k = 0 THEN g.txt
+           ELSE <<123>> \o names[g.var] \o FmtText(g.w, g.mode, g.hex) \o <<125>>)
+          \o TplText(Tail(segs), names)
+
+-----------------------------------------------------------------------------
+(* Rounding format  #.d : the inserted text denotes the number rounded to d
+   digits behind the point.  The number is a decimal numeral
+   [neg, ip, fp] = (-)ip.fp with digit VALUES (any length); inputs are never
+   ties.  The text is compared as a number: '1.5', '1.50', '15e-1' all stand
+   for 3/2, '-0.0' for 0. *)
+
+Vals(q) == [i \in 1..Len(q) |-> q[i] - 48]
+
+NoNum == [ok |-> FALSE, neg |-> FALSE, ip |-> << >>, fp |-> << >>]
+
+\* (-)ip.fp * 10^e
+ShiftNum(neg, ip, fp, e) ==
+  IF e >= 0
+  THEN LET f == fp \o Rep(0, e - Len(fp))
+       IN [ok |-> TRUE, neg |-> neg, ip |-> ip \o Take(f, e), fp |-> Drop(f, e)]
+  ELSE LET p == Rep(0, (-e) - Len(ip)) \o ip
+           n == Len(p) + e
+       IN [ok |-> TRUE, neg |-> neg, ip |-> Take(p, n), fp |-> Drop(p, n) \o fp]
+
+\* [-] digits [ . digits ] [ e [+|-] digits ]
+ParseNum(txt) ==
+  LET neg  == txt # << >> /\ txt[1] = 45
+      body == IF neg THEN Tail(txt) ELSE txt
+      ep   == IndexFrom(body, 101, 1)
+      mant == IF ep = 0 THEN body ELSE Take(body, ep - 1)
+      ex   == IF ep = 0 THEN << >> ELSE Drop(body, ep)
+      eneg == ex # << >> /\ ex[1] = 45
+      eds  == IF ex # << >> /\ ex[1] \in {43, 45} THEN Tail(ex) ELSE ex
+      dot  == IndexFrom(mant, 46, 1)
+      ipt  == IF dot = 0 THEN mant ELSE Take(mant, dot - 1)
+      fpt  == IF dot = 0 THEN << >> ELSE Drop(mant, dot)
+      good == /\ AllDigits(ipt) /\ AllDigits(fpt) /\ Len(ipt) + Len(fpt) >= 1
+              /\ (ep # 0 => Len(eds) \in 1..3 /\ AllDigits(eds))
+  IN IF ~good THEN NoNum
+     ELSE ShiftNum(neg, Vals(ipt), Vals(fpt),
+                   IF ep = 0 THEN 0 ELSE IF eneg THEN -DigitsVal(eds) ELSE DigitsVal(eds))
+
+RECURSIVE StripLeft0(_)
+StripLeft0(ds) == IF ds # << >> /\ Head(ds) = 0 THEN StripLeft0(Tail(ds)) ELSE ds
+RECURSIVE StripRight0(_)
+StripRight0(ds) == IF ds # << >> /\ Last(ds) = 0 THEN StripRight0(Front(ds)) ELSE ds
+
+\* the canonical numeral of the same number
+NormNum(num) ==
+  LET i == StripLeft0(num.ip)
+      f == StripRight0(num.fp)
+  IN [neg |-> num.neg /\ (i # << >> \/ f # << >>), ip |-> i, fp |-> f]
+
+IsTie(fp, d) == /\ Len(fp) > d /\ fp[d + 1] = 5
+                /\ \A i \in (d + 2)..Len(fp) : fp[i] = 0
+
+\* rounded to the nearest numeral with d digits behind the point (not a tie)
+RoundNum(neg, ip, fp, d) ==
+  IF Len(fp) <= d THEN [neg |-> neg, ip |-> ip, fp |-> fp]
+  ELSE LET keep == ip \o Take(fp, d)
+           cut  == Drop(fp, d)
+           up   == cut[1] > 5 \/ (cut[1] = 5 /\ \E i \in 2..Len(cut) : cut[i] # 0)
+           all  == IF up THEN Incr(keep) ELSE keep
+       IN [neg |-> neg, ip |-> Take(all, Len(all) - d), fp |-> Drop(all, Len(all) - d)]
+
+RoundTextOK(txt, neg, ip, fp, d) ==
+  LET p == ParseNum(txt)
+  IN /\ p.ok
+     /\ NormNum(p) = NormNum(RoundNum(neg, ip, fp, d))
+
+\* the same with 32-bit arithmetic, for small numbers (StrNum.tla checks that
+\* the two definitions agree): m / 10^sc rounded to d digits, as an integer
+\* number of 10^-d units
 RoundUnits(m, sc, d) ==
   IF sc <= d THEN m * Pow10(d - sc)
   ELSE (m + Pow10(sc - d) \div 2) \div Pow10(sc - d)
 
-RoundTextOK(txt, m, sc, d) ==
-  LET p == ParseDec(txt)
-  IN /\ p.ok
-     /\ p.mant * Pow10(d) = RoundUnits(m, sc, d) * Pow10(p.sc)
+RECURSIVE SeqVal(_)                 \* value of a short sequence of digit values
+SeqVal(ds) == IF ds = << >> THEN 0 ELSE SeqVal(Front(ds)) * 10 + Last(ds)
+
+-----------------------------------------------------------------------------
+(* Laws that need no table of characters: they hold whatever the
+   implementation regards as white space or as a letter. *)
+
+\* a character that is certainly not white space: printable ASCII, e-acute
+Solid(c) == (c >= 33 /\ c <= 126) \/ c = 233 \/ c = 201
+\* a character whose treatment by trim / upper / lower the tables above define
+Plain(c) == Solid(c) \/ c \in WS
+AllPlain(s) == \A i \in 1..Len(s) : Plain(s[i])
+
+\* rs is what is left of s when something was taken from its two ends only,
+\* nothing that is certainly not white space was taken, and no (ASCII) white
+\* space is left at the ends
+TrimLawOK(s, rs) ==
+  /\ \E i \in 0..Len(s) :
+        /\ i + Len(rs) <= Len(s)
+        /\ SubSeq(s, i + 1, i + Len(rs)) = rs
+        /\ \A j \in 1..i : ~Solid(s[j])
+        /\ \A j \in (i + Len(rs) + 1)..Len(s) : ~Solid(s[j])
+  /\ (rs # << >> => rs[1] \notin WS /\ Last(rs) \notin WS)
 
 -----------------------------------------------------------------------------
 (* lines / words / unlines / unwords / q / esc (modules core.ckl, string.ckl):
